@@ -201,6 +201,26 @@ def flag_style_classes(m):
     return out
 
 
+def check_rotation_names(ctx):
+    """R11.1: every rotation class passes its own name on (the name selects the tket operation on export and tells two rotations with the same phase apart)"""
+    m = ctx.model
+    rot = m.cls(GATES + ".Rotation")
+    n = 0
+    for c in sorted(m.subclasses(rot, strict=True), key=lambda k: k.q):
+        if "__init__" not in c.methods:
+            continue
+        fn = c.methods["__init__"][0]
+        sup = next((x for x in ast.walk(fn) if isinstance(x, ast.Call) and ast.unparse(x.func) == "super().__init__"), None)
+        nm = next((k.value for k in sup.keywords if k.arg == "name"), None) if sup is not None else None
+        n += 1
+        ctx.ob("R11.1", c.q + ".__init__:name", isinstance(nm, ast.Constant) and nm.value == c.name, found=ast.unparse(sup) if sup is not None else None, required="super().__init__(phase, name=%r, ...)" % c.name, mod=c.mod, node=fn,
+               sig="rotation-name")
+        ph = sup.args[0] if sup is not None and sup.args else None
+        ctx.ob("R11.1", c.q + ".__init__:phase", ph is not None and ast.unparse(ph) == fn.args.args[1].arg, found=ast.unparse(ph) if ph is not None else None, required="the phase given is the phase stored", mod=c.mod, node=fn,
+               sig="rotation-phase", trivial=True)
+    ctx.need(n >= 6, "fewer than 6 rotation classes with a constructor (%d)" % n)
+
+
 def check_scalar_daggers(ctx):
     """R11.3: a scalar is its own dagger exactly when it is real; otherwise the dagger is the scalar of the conjugate"""
     m = ctx.model
@@ -484,6 +504,7 @@ def check(ctx):
     check_rotation_dagger(ctx)
     check_flag_readers(ctx)
     check_scalar_daggers(ctx)
+    check_rotation_names(ctx)
     check_eval_and_states(ctx)
     check_rewire(ctx)
     ctx.rule("R11.7", "the pure evaluation is the tensor functor whose loop invariant and flag discipline are decided by C09; bras, kets and gates are daggered as C02 R02.4 requires")
